@@ -11,7 +11,8 @@
    table name -> suite name.  Go ranges over the Services MAP: the order in which
    the entries are visited is an explicit argument -- the model takes the entries
    as a list IN ITERATION ORDER, and the theorems quantify over all permutations.
-   [fix_f20] selects the proposed repair (sort the identities by service name).
+   [fix_f20] selects the repair F20 (sort the identities by service name; in /repo
+   since commit 52bede4 -- the unrepaired variant is kept for the refutation).
    Go panics are [.. Panic], returned errors [.. Err]. *)
 From Coq Require Import List Arith Bool Ascii String NArith ZArith.
 From Coq Require DecimalString.
@@ -199,6 +200,10 @@ Definition read_group (fix_f20 : bool) (H256 U5 : bytes -> bytes) (r : registry)
   | Some (Some ids) => GOk ids (new_roster H256 U5 (map gmember_of ids))
   end.
 
+(* the roster NewRoster hashes for a list of identities *)
+Definition roster_of (ids : list identity) : roster :=
+  map (fun i => {| m_key := i_pub i; m_srv := map sid_pub (i_srv i) |}) ids.
+
 (* ---------- writer: Group.Toml + GroupToml.String, then the TOML encoder ------ *)
 Definition default_description : bytes := bs "Description of your server".
 
@@ -249,3 +254,17 @@ Fixpoint write_group (r : registry) (suite : bytes) (suite_known : bool) (ids : 
                  | _, _ => None
                  end
   end.
+
+(* ---------- writer of the private configuration: CothorityConfig.Save -----------
+   Save encodes the CothorityConfig that LoadCothority returned, field by field
+   (Suite -- already defaulted by LoadCothority --, Public, Private, Address,
+   ListenAddress, Description, URL, the two certificate fields) and the Services
+   map, one table per name with Suite / Public / Private.  At the level of the
+   model (a file = what the TOML decoder delivers, a key text = its parsed key) the
+   written file holds the same fields, and the Services as a map: entries keyed by
+   name (a later entry of the same name would replace an earlier one), which the
+   next reader visits in an arbitrary order. *)
+Definition write_private (c : cothority) : cothority :=
+  {| co_suite_known := co_suite_known c; co_pub := co_pub c; co_priv := co_priv c;
+     co_addr := co_addr c; co_host := co_host c; co_port := co_port c; co_desc := co_desc c;
+     co_url := co_url c; co_tlskey := co_tlskey c; co_srv := to_map (co_srv c) |}.
